@@ -21,6 +21,7 @@ type BuildOpts struct {
 	SingleSpec bool
 	ExtFiles   bool // add external-writer files
 	BigNums    bool // boundary-magnitude values under the indexed keys
+	BigRegion  bool // external files get multi-MiB filter sections (multi-chunk region reads)
 }
 
 // Descriptor is the replayable description of a built scenario.
@@ -29,6 +30,7 @@ type Descriptor struct {
 	Kind    StoreKind        `json:"stores"`
 	Engines []gen.EngineSpec `json:"engines"`
 	Steps   []string         `json:"steps"`
+	Ext     []*ExtFileDesc   `json:"external_files,omitempty"`
 	Rows    int              `json:"rows"`
 	Files   int              `json:"files"`
 	Blocks  int              `json:"blocks"`
@@ -116,6 +118,23 @@ func BuildWith(r *core.Rand, caseID string, o BuildOpts, pre func(*World)) (*Wor
 			return nil, nil, fmt.Errorf("ingest step %d: %w", s, err)
 		}
 		d.Steps = append(d.Steps, fmt.Sprintf("ingest(engine=%d,batches=%d,rows=%d)+flush", ei, len(batches), total))
+		if o.ExtFiles && r.Chance(0.6) {
+			inflate := 0
+			if o.BigRegion {
+				inflate = 160000
+			}
+			nx := r.Range(3, 25)
+			if inflate > 0 {
+				nx = r.Range(12, 25)
+			}
+			xd, err := w.AddExtFile(r.Split("ext", s), r.Intn(len(w.Eng)), nx, inflate)
+			if err != nil {
+				w.Close()
+				return nil, nil, fmt.Errorf("external file: %w", err)
+			}
+			d.Ext = append(d.Ext, xd)
+			d.Steps = append(d.Steps, fmt.Sprintf("extwriter(file=%s,blocks=%d,rows=%d)", xd.Ptr, xd.Blocks, xd.Rows))
+		}
 		if !o.NoMerge && (r.Chance(0.3) || (o.MoreMerge && r.Chance(0.5))) {
 			mi := r.Intn(len(w.Eng))
 			rounds := 1
